@@ -57,6 +57,41 @@ class PkgTwo(Command):
     output = params.StringParameter()
     def execute(self, **kw): return "upkg.two.PkgTwo"
 ''',
+    "upkg_one.py": '''
+from mpilot import params
+from mpilot.commands import Command
+class Underscore(Command):
+    output = params.StringParameter()
+    def execute(self, **kw): return "upkg_one.Underscore"
+class PkgOne(Command):
+    output = params.StringParameter()
+    def execute(self, **kw): return "upkg_one.PkgOne"
+''',
+    "upkgzone.py": '''
+from mpilot import params
+from mpilot.commands import Command
+class Zed(Command):
+    output = params.StringParameter()
+    def execute(self, **kw): return "upkgzone.Zed"
+''',
+    "updup/__init__.py": "",
+    "updup/a.py": '''
+from mpilot import params
+from mpilot.commands import Command
+class Shared(Command):
+    output = params.StringParameter()
+    def execute(self, **kw): return "updup.a.Shared"
+class OnlyA(Command):
+    output = params.StringParameter()
+    def execute(self, **kw): return "updup.a.OnlyA"
+''',
+    "updup/b.py": '''
+from mpilot import params
+from mpilot.commands import Command
+class Shared(Command):
+    output = params.StringParameter()
+    def execute(self, **kw): return "updup.b.Shared"
+''',
     "upkg_more/__init__.py": "",
     "upkg_more/three.py": '''
 from mpilot import params
@@ -85,7 +120,7 @@ def describe(libs):
     lib = {}
     for name, cls in sorted(p.command_library.items()):
         entry = {"module": cls.__module__}
-        if cls.__module__.split(".")[0] in ("ulib", "ulib_extra", "ulibx", "other", "upkg", "upkg_more", "__main__"):
+        if cls.__module__.split(".")[0] in ("ulib", "ulib_extra", "ulibx", "other", "upkg", "upkg_more", "upkg_one", "upkgzone", "updup", "__main__"):
             try:
                 p.add_command(cls, "probe_" + name, {})
                 entry["behaviour"] = p.commands["probe_" + name].result
